@@ -43,6 +43,13 @@ def run(chk):
         events += json.loads(out.strip().split("\n")[-1])["summary"]["events"]
         traces.append(tp)
 
+    # the fallback is an explicit request for colour: what the process environment says about colour does not change the frame
+    tp = os.path.join(wd, "trace-env.ndjson")
+    out = vlib.run_harness(vh, ["ansi-replay", os.path.join(wd, "scripts-0.ndjson"), tp],
+                           env={"NO_COLOR": "1", "CLICOLOR": "0", "TERM": "dumb", "CLICOLOR_FORCE": "0"}).stdout
+    events += json.loads(out.strip().split("\n")[-1])["summary"]["events"]
+    traces.append(tp)
+
     def val(p):
         ok, rej, res = vlib.tlc_trace(p, "Trace_WinconAnsi", "c17-" + os.path.basename(p), timeout=3000)
         return p, ok, rej, res
